@@ -262,6 +262,14 @@ func (c *Checker) resolveConstantType(constantExpression ast.ExpressionNode) (ty
 	case *ast.GenericConstantNode:
 		typeNode, name := c.checkGenericConstantType(constant)
 		return c.TypeOf(typeNode), name
+	case *ast.UnquoteNode:
+		c.addFailure(
+			"unquote expressions cannot appear in this context",
+			constant.Location(),
+		)
+		return types.Untyped{}, ""
+	case *ast.InvalidNode:
+		return types.Untyped{}, ""
 	default:
 		panic(fmt.Sprintf("invalid constant node: %T", constantExpression))
 	}
